@@ -41,6 +41,16 @@ def plan(tier, seed):
                 shards.append(dict(name=f"{n}#{part}", type=n, part=part, parts=4))
         else:
             shards.append(dict(name=n, type=n, part=0, parts=1))
+    # families of types that share a base enumeration, checked in one process with the same values back to back in both
+    # orders: state carried from one type to its siblings (memoised verdicts, shared caches) shows here
+    fam = {}
+    for n in names:
+        bases = P["types"][n]["bases"]
+        root = bases[-2] if len(bases) >= 2 else (bases[-1] if bases else n)
+        fam.setdefault(root, []).append(n)
+    for root, members in sorted(fam.items()):
+        if len(members) >= 2:
+            shards.append(dict(name=f"family-{root}", type=None, family=members, part=0, parts=1))
     return shards
 
 
@@ -196,9 +206,37 @@ def check_ops(tn, T, d, vals, rng, rec, viol):
                         viol(f"cmp-{opname}", f"{opname}({args[0]!r}, {args[1]!r}) = {outcome(op, *args)} expected {exp}", v)
 
 
+def run_family(shard, rec):
+    from ..trace import type_by_name
+
+    P = layout.pinned()["types"]
+    rng = random.Random(f"{shard.get('seed', 0)}:C16:{shard['name']}")
+    members = [(tn, type_by_name(tn), P[tn]) for tn in shard["family"]]
+    vals = set()
+    for tn, T, d in members:
+        bv = boundary_values(d)
+        vals.update(bv if len(bv) <= 60 else rng.sample(bv, 60))
+    for v in sorted(vals):
+        order = list(members)
+        rng.shuffle(order)
+        for tn, T, d in order + order[::-1]:
+            lo, hi = limits(d)
+            if not lo <= v < hi:
+                continue
+
+            def viol(rule, msg, value, tn=tn):
+                rec.violation(rule, f"family:{rule}:{tn}", msg + f" (checked right after its sibling types {[m[0] for m in order][:4]}...)", dict(type=tn, value=value, family=shard["family"]))
+
+            check_value(tn, T, d, v, rec, viol)
+    rec.count("family_shards")
+
+
 def run_shard(shard, rec):
     from ..trace import type_by_name
 
+    if shard["type"] is None:
+        run_family(shard, rec)
+        return
     tn = shard["type"]
     d = layout.pinned()["types"][tn]
     T = type_by_name(tn)
@@ -230,6 +268,8 @@ def finish(m, tier):
     inc = []
     if m["counters"].get("types", 0) != 102:
         inc.append(f"{m['counters'].get('types', 0)} primitive types checked, expected 102")
+    if not m["counters"].get("family_shards"):
+        inc.append("no family shard ran")
     if not m["counters"].get("named_values"):
         inc.append("no named value was checked")
     return dict(inconclusive=inc)
@@ -238,6 +278,9 @@ def finish(m, tier):
 def replay(case, rec):
     from ..trace import type_by_name
 
+    if case.get("family"):
+        run_family(dict(name="replay", family=case["family"]), rec)
+        return
     tn = case["type"]
     d = layout.pinned()["types"][tn]
     T = type_by_name(tn)
